@@ -74,8 +74,10 @@ def decode_history(m, cycles, shipped, extra_pre=None):
             if z3.is_true(ev(c.env['root']['hop_fetch_err'][i])): break
             hv = I8(h)
             serve[str(curv + 1)] = root_ids.index(hv)
-            # the client adopts it iff verified by current and itself and version higher
-            a = z3.is_true(ev(V(z3.BitVecVal(cur, 8), h))) and z3.is_true(ev(V(h, h))) and I8(Ver(h)) > curv
+            # does the ENCODED client adopt it?  When its walk succeeded, that is read off the root it ends on (so that a client which
+            # deviates from the rule is still served the files it asks for); otherwise the rule: verified by current and itself, version higher
+            if final is not None: a = final in [I8(x) for x in c.hops[i:]]
+            else: a = z3.is_true(ev(V(z3.BitVecVal(cur, 8), h))) and z3.is_true(ev(V(h, h))) and I8(Ver(h)) > curv
             if not a: break
             cur = hv; curv = I8(Ver(h))
         def doc(nm, rn):
@@ -153,7 +155,7 @@ def differential(R, sums, ncycles=1, max_models=6, build=None, extra=None, label
             if exp_root is not None and got != names and not (len(got) < len(names) and not rc['ok']):
                 devs.append(f'cycle {k+1}: root files requested {got}, reference {names}')
         if devs: found.append(('; '.join(devs), sc))
-        elif d: R.inconclusive.append(f'{label}: encoding and native run disagree: ' + '; '.join(d) + ' scenario=' + json_short(sc))
+        elif d: R.inconclusive.append(f'{label}: encoding and native run disagree: ' + '; '.join(d) + ' scenario=' + R.save_unreproduced(sc, pred, real))
         else: R.differential['agree'] += 1
         s.add(z3.Or([x != m.eval(x, model_completion=True) for x in klass]))
     return found
